@@ -227,11 +227,13 @@ def remove_SplitSliceRead(op, arch):
         # Check if it is possible to put the SplitSliceRead on the tensor consumer(s),
         # or if an avgpool need to be inserted
         # Not possible to do if consumer is a Transpose op since ifm shape has been reshaped and can not be changed
+        # If the ofm shares its buffer with the ifm (slice of a LSTM state) an avgpool would copy the slice within that
+        # buffer, so it has to be read by the consumer(s)
         if op.ofm_shapes[0] == Shape4D.from_list(op.ofm.shape) and all(
             consumer is not None
             and consumer.run_on_npu
             and consumer.type not in memory_only_ops
-            and consumer.type != Op.Mul
+            and (consumer.type != Op.Mul or op.ofm.equivalence_id == op.ifm.equivalence_id)
             and consumer.original_type != Op.Transpose
             for consumer in op.ofm.consumer_list
         ):
